@@ -258,6 +258,14 @@ func (h *SexpHash) TypeCheckField(key Sexp, val Sexp) error {
 		keySym = ks
 		wasSym = true
 	default:
+		// a record of a declared struct type has only its declared,
+		// symbol-named fields: a string or number key would add an
+		// undeclared member behind the type check below.
+		if f := h.GoStructFactory; f != nil && f.UserStructDefn != nil &&
+			h.TypeName != "hash" && h.TypeName != "field" {
+			return fmt.Errorf("%s has no field '%s' [err 2]",
+				f.UserStructDefn.Name, key.SexpString(nil))
+		}
 		return KeyNotSymbol
 	}
 	p := h.GoStructFactory
